@@ -230,6 +230,27 @@ Theorem C12_shared_backoff_independence_refuted :
     /\ hooks (r_trace r') = [(1, 5); (2, 10); (3, 20)].
 Proof. exact shared_backoff_not_independent. Qed.
 
+(** ZERO back-off and an ended context (the select has both cases ready; Go chooses uniformly at
+    random — the code does not look at the context anywhere else).
+    (a) after Done is ready a retry can only come from a wait <= 0, for every configuration *)
+Theorem C12_retry_after_context_end_only_without_wait : forall c h e, env_ok c h e = true ->
+  forall it, In it (r_waits (retry c h e)) -> lost_race (t_done c e) it = true -> w_wait it <= 0.
+Proof. exact retry_after_context_end. Qed.
+(** (b) with every attempt failing, ALL retries are made iff EVERY select takes the timer case: of
+    the 2^n resolutions of n such coin flips exactly one — probability 2^-n — runs to the end *)
+Theorem C12_zero_wait_race_count : forall c h e,
+  (forall j, (j <= iterations c)%nat -> is_ok (h j) = false) ->
+  (attempts (r_trace (retry c h e)) = 1 + iterations c)%nat
+  <-> (forall j, (1 <= j <= iterations c)%nat -> s_ctx (e_sel e j) = false).
+Proof. exact retry_all_retries_iff. Qed.
+(** (c) under the fair-select contract "at most K races are lost to the timer" (probability of a
+    violation 2^-K) a run of the model shows at most K retries started after cancel() had returned:
+    the acceptor [late_ok K] that Corr/C12.v evaluates on the implementation with K = 40 *)
+Theorem C12_gives_up_within_K_zero_waits : forall c h e K, env_ok c h e = true ->
+  (lost_races (t_done c e) (r_waits (retry c h e)) <= K)%nat ->
+  late_ok K (obs_of e (retry c h e)) = true.
+Proof. exact retry_late_ok. Qed.
+
 Print Assumptions C12_first_success_wins.
 Print Assumptions C12_attempt_bound.
 Print Assumptions C12_attempt_bound_nonpositive.
@@ -255,6 +276,9 @@ Print Assumptions C12_early_exit_only_on_ctx.
 Print Assumptions C12_gives_up_when_context_ends.
 Print Assumptions C12_max_elapsed_gives_up_partial.
 Print Assumptions C12_model_accepted.
+Print Assumptions C12_retry_after_context_end_only_without_wait.
+Print Assumptions C12_zero_wait_race_count.
+Print Assumptions C12_gives_up_within_K_zero_waits.
 Print Assumptions C12_interleaving_independent.
 Print Assumptions C12_concurrent_messages_are_independent_runs.
 Print Assumptions C12_shared_backoff_independence_refuted.
@@ -319,3 +343,17 @@ Example C12_negative_initial_interval :
   env_ok c (fun _ => ([], 7%N)) e = true
   /\ hooks (r_trace (retry c (fun _ => ([], 7%N)) e)) = [(1, -2); (2, -5)].
 Proof. split; vm_compute; reflexivity. Qed.
+
+(** the zero-value configuration Retry{MaxRetries: 3}: every back-off is 0 (Multiplier 0 x 0);
+    the handler cancels the context in the first attempt; a valid environment in which the select
+    loses the race twice and then gives up: two "late" retries, accepted for K >= 2 only *)
+Example C12_zero_backoff_race_witness :
+  let c := Cfg 3 0 0 0 0 0 true false in
+  let h := fun _ => ([], 7%N) in
+  let e := Env 0 1 0 0 (Some 1) None
+             (fun k => Sel 0 (Z.of_nat k - 1) 0 (3 <=? k)%nat 0 1) in
+  env_ok c h e = true
+  /\ hooks (r_trace (retry c h e)) = [(1, 0); (2, 0)]
+  /\ lost_races (t_done c e) (r_waits (retry c h e)) = 2%nat
+  /\ late_ok 1 (obs_of e (retry c h e)) = false /\ late_ok 2 (obs_of e (retry c h e)) = true.
+Proof. repeat split; vm_compute; reflexivity. Qed.
